@@ -40,12 +40,20 @@ import (
 // ---- job ---------------------------------------------------------------------------------------------------------
 
 type adProbe struct {
-	Kind string `json:"kind"` // "replay" | "wrapped" | "outsider"
+	Kind string `json:"kind"` // "replay" | "wrapped" | "outsider" | "standin"
 	At   int    `json:"at"`   // receiver
 	URL  string `json:"url"`  // short type name (after "type.googleapis.com/binance.tsslib.")
-	A    int    `json:"a"`    // party whose captured message is used (replay/outsider) / embedded as sender (wrapped)
+	A    int    `json:"a"`    // party whose captured message is used (replay/outsider/standin) / embedded as sender (wrapped)
 	B    int    `json:"b"`    // transport sender the probe is delivered as
 	Flag bool   `json:"flag"` // broadcast flag handed to OnMsg with the probe
+	// standin: a NON-member b sends, in place of member M, a message of type URL whose content was produced by another party a.
+	// M's genuine message of that type is held back at the receiver; the probe is injected when it is the only message of its
+	// library step (StepURLs) the receiver still lacks; M's genuine message is released once the receiver has been delivered every
+	// message of the next step (NextURLs) from every other party (at once for the last step).  If the adapter filed the probe
+	// under M's index the receiver would go on with foreign content in M's place.
+	M        int      `json:"m"`
+	StepURLs []string `json:"step_urls"`
+	NextURLs []string `json:"next_urls"`
 }
 
 type adSign struct {
@@ -258,7 +266,12 @@ func (l *adLogger) Warnf(format string, a ...interface{}) {
 	if len(txt) > 160 {
 		txt = txt[:160]
 	}
-	l.run.log(obj{"e": "warn", "p": l.p, "k": k, "txt": txt})
+	// "proto": issued by the protocol goroutine (e.g. the library rejected what it was handed); "onmsg": inside OnMsg/ClassifyMsg
+	path := "proto"
+	if k != "lib-reject" && k != "serialize" && (k != "other" || atomic.LoadInt32(&l.inCall) == 1) {
+		path = "onmsg"
+	}
+	l.run.log(obj{"e": "warn", "p": l.p, "k": k, "path": path, "txt": txt})
 }
 
 func (l *adLogger) Errorf(format string, a ...interface{}) {
@@ -266,7 +279,7 @@ func (l *adLogger) Errorf(format string, a ...interface{}) {
 	if len(txt) > 160 {
 		txt = txt[:160]
 	}
-	l.run.log(obj{"e": "warn", "p": l.p, "k": "error", "txt": txt})
+	l.run.log(obj{"e": "warn", "p": l.p, "k": "error", "path": "proto", "txt": txt})
 }
 
 // ---- one protocol run (a key generation or a signing) -------------------------------------------------------------------------
@@ -285,6 +298,16 @@ type adRx struct {
 	q     chan adDeliv
 	held  []adDeliv
 	done  bool // probe injected (or no probe for this receiver)
+	// standin probes
+	delivered map[string]bool // "<from>|<short url>" handed to OnMsg
+	stage     int             // 0 waiting to inject, 1 injected (M's message still held), 2 finished
+	heldM     *adDeliv
+	src       []byte
+	// probe runs: deliveries start only after the party's own first emission, i.e. once its protocol instance has been started
+	// (tss-lib only stores a message that arrives before Start and does not act on it until the next message arrives; with a
+	// held-back message that next message might never come)
+	started int32
+	pre     []adDeliv
 }
 
 type adRun struct {
@@ -356,8 +379,10 @@ func (r *adRun) sender(s int) func(msg []byte, isBroadcast bool, to uint16) {
 				r.rx[id].q <- adDeliv{from: s, m: m, data: data}
 			}
 		}
-		if pr := r.probe; pr != nil && pr.A == pr.At && s == pr.At {
-			r.rx[pr.At].q <- adDeliv{tick: true}
+		if r.probe != nil {
+			if atomic.CompareAndSwapInt32(&r.rx[s].started, 0, 1) || (r.probe.A == r.probe.At && s == r.probe.At) {
+				r.rx[s].q <- adDeliv{tick: true}
+			}
 		}
 	}
 }
@@ -403,11 +428,34 @@ func (r *adRun) deliver(rx *adRx, d adDeliv) {
 // probed type are held at the probed receiver until the captured message (of a) and the genuine message of b are available; then
 // the probe is delivered, immediately followed by b's genuine message and the other held messages in arrival order.
 func (r *adRun) handle(rx *adRx, d adDeliv) {
+	if r.probe != nil {
+		if atomic.LoadInt32(&rx.started) == 0 {
+			if !d.tick {
+				rx.pre = append(rx.pre, d)
+			}
+			return
+		}
+		if len(rx.pre) > 0 {
+			pre := rx.pre
+			rx.pre = nil
+			for _, x := range pre {
+				r.handle1(rx, x)
+			}
+		}
+	}
+	r.handle1(rx, d)
+}
+
+func (r *adRun) handle1(rx *adRx, d adDeliv) {
 	pr := r.probe
 	if pr == nil || pr.At != rx.id || rx.done {
 		if !d.tick {
 			r.deliver(rx, d)
 		}
+		return
+	}
+	if pr.Kind == "standin" {
+		r.handleStandin(rx, d)
 		return
 	}
 	if !d.tick {
@@ -460,6 +508,59 @@ func (r *adRun) handle(rx *adRx, d adDeliv) {
 	rx.held = nil
 }
 
+func (r *adRun) handleStandin(rx *adRx, d adDeliv) {
+	pr := r.probe
+	if rx.delivered == nil {
+		rx.delivered = map[string]bool{}
+	}
+	if !d.tick {
+		url, _ := pbAnyURL(d.data)
+		su := adShort(url)
+		if d.from == pr.M && su == pr.URL && rx.heldM == nil {
+			h := d
+			rx.heldM = &h
+		} else {
+			if d.from == pr.A && su == pr.URL && rx.src == nil {
+				rx.src = d.data
+			}
+			r.deliver(rx, d)
+			rx.delivered[fmt.Sprintf("%d|%s", d.from, su)] = true
+		}
+	}
+	if rx.src == nil && pr.A == rx.id {
+		r.mu.Lock()
+		rx.src = r.first[fmt.Sprintf("%d|%s", pr.A, pr.URL)]
+		r.mu.Unlock()
+	}
+	have := func(urls []string, exceptM bool) bool {
+		for _, q := range r.ids {
+			if q == rx.id {
+				continue
+			}
+			for _, u := range urls {
+				if exceptM && q == pr.M && u == pr.URL {
+					continue
+				}
+				if !rx.delivered[fmt.Sprintf("%d|%s", q, u)] {
+					return false
+				}
+			}
+		}
+		return true
+	}
+	if rx.stage == 0 && rx.src != nil && have(pr.StepURLs, true) {
+		rx.stage = 1
+		atomic.StoreInt32(&r.fired, 1)
+		r.onmsg(rx, rx.src, pr.B, pr.Flag, 0, 0, "standin")
+	}
+	if rx.stage == 1 && rx.heldM != nil && have(pr.NextURLs, false) {
+		rx.stage = 2
+		rx.done = true
+		r.deliver(rx, *rx.heldM)
+		rx.heldM = nil
+	}
+}
+
 type adResult struct {
 	p   int
 	out []byte
@@ -472,9 +573,10 @@ func adRunPhase(t int, ad string, ids []int, thr int, phase string, shares map[i
 	timeout time.Duration) ([]obj, map[int][]byte, bool, bool) {
 	r := &adRun{t: t, ad: ad, ids: ids, first: map[string][]byte{}, rx: map[int]*adRx{}, probe: probe}
 	reset := obj{"e": "reset", "ad": ad, "ph": phase, "ids": ids, "thr": thr, "dg": adBytesToInts(digest),
-		"pk": "", "pp": 0, "pa": 0, "pb": 0, "pf": false, "purl": ""}
+		"pk": "", "pp": 0, "pa": 0, "pb": 0, "pf": false, "purl": "", "pm": 0}
 	if probe != nil {
 		reset["pk"], reset["pp"], reset["pa"], reset["pb"], reset["pf"], reset["purl"] = probe.Kind, probe.At, probe.A, probe.B, probe.Flag, probe.URL
+		reset["pm"] = probe.M
 	}
 	r.log(reset)
 	ids16 := make([]uint16, len(ids))
@@ -800,7 +902,7 @@ func adClassifyExec(job adJob, em *emitter) {
 	}
 	t := job.ClassifyT
 	r := &adRun{t: t, first: map[string][]byte{}, rx: map[int]*adRx{}}
-	r.log(obj{"e": "reset", "ad": "both", "ph": "table", "ids": []int{1}, "thr": 0, "dg": []int{}, "pk": "", "pp": 0, "pa": 0, "pb": 0, "pf": false, "purl": ""})
+	r.log(obj{"e": "reset", "ad": "both", "ph": "table", "ids": []int{1}, "thr": 0, "dg": []int{}, "pk": "", "pp": 0, "pa": 0, "pb": 0, "pf": false, "purl": "", "pm": 0})
 	rng := rand.New(rand.NewSource(adSeed()))
 	parties := map[string]*adRx{}
 	for _, ad := range []string{"ecdsa", "eddsa"} {
